@@ -1,6 +1,6 @@
 #!/bin/bash
 # usage: sweep_clean.sh [dir-glob ...]  — every stored behaviour-preserving variant (hidden/*/clean.diff, refactors/*/patch.diff,
-# small/*/*.diff) × every check; prints the runs that exit 1 (false alarms)
+# small/*/*.diff) × every check (or those named in $CHECKS); prints the runs that exit 1 (false alarms)
 T=$(mktemp -d /tmp/sweep.XXXX)
 ls /verif/hidden/*/clean.diff /verif/refactors/*/patch.diff /verif/small/*/*.diff 2>/dev/null > $T/list
 n=0
@@ -8,7 +8,7 @@ while read f; do
   n=$((n+1)); d=$T/v$n; mkdir -p $d; cp -r /repo/persim $d/; (cd $d && patch -s -p1 < $f >/dev/null 2>&1) || { echo "does not apply: $f"; continue; }
   echo "$d $f" >> $T/dirs
 done < $T/list
-while read d f; do for c in C01 C02 C03 C04 C06 C07 C08 C09 C10 C11 C12 C13 C14 C15 C16 C17 C18 C19 C20; do echo "$d $c $f"; done; done < $T/dirs > $T/jobs
+while read d f; do for c in ${CHECKS:-C01 C02 C03 C04 C06 C07 C08 C09 C10 C11 C12 C13 C14 C15 C16 C17 C18 C19 C20}; do echo "$d $c $f"; done; done < $T/dirs > $T/jobs
 cat $T/jobs | xargs -P 15 -L 1 sh -c 'cd /verif; out=$(/venv/bin/python -m pst.check $1 --repo $0 --dry 2>&1); e=$?; if [ $e = 1 ]; then echo "FALSE-ALARM $1 $2: $(echo "$out" | grep " rule=" | head -1 | cut -c1-220)"; fi' 
 echo "sweep done: $(wc -l < $T/jobs) runs"
 rm -rf $T
